@@ -7,6 +7,7 @@
 #
 import re
 
+from ural.is_url import is_url
 from ural.patterns import URL_IN_TEXT_RE
 
 IRRELEVANT_PUNCTUATION = set("!?#\"$%&'()*+,-.:;<=>@[\\]^_`{|}~…’‘`‛«»„‟“”-‐‒–—―−‑⁃,،、")
@@ -30,10 +31,12 @@ def urls_from_text(string):
         if s > 0 and string[s - 1] == "[":
             if "](" in url:
                 remainder, url = url.split("](", 1)
-                yield remainder.strip()
 
-                # NOTE: the markdown link might have an empty target
-                if not url:
+                # NOTE: the markdown link might hold something else than urls
+                if is_url(remainder, require_protocol=True, only_http_https=False):
+                    yield remainder.strip()
+
+                if not is_url(url, require_protocol=True, only_http_https=False):
                     continue
 
         last_punct = None
